@@ -18,7 +18,7 @@ impl Template {
     #[verifier::external_body]
     pub fn render_to(&self, writer: &mut Sink, runtime: &dyn Runtime) -> (r: Result<()>)
         requires !old(writer).failed@,                                                      // [C10:no_write_after_failure]
-        ensures renders_as_child(self.rid(), *old(writer), *final(writer), r)
+        ensures renders_as_child(self.rid(), runtime.ident(), *old(writer), *final(writer), r)
     { unimplemented!() }
 }
 #[verifier::external_body]
@@ -148,12 +148,12 @@ impl Conditional {
         sink_safe(*old(writer), *final(writer), r),                                              // [C10:conditional_failed_sink_is_error]
         // exactly one branch: the true branch iff condition == mode, else the else branch if there is one, else nothing
         r is Ok ==> (self.condition.sem(runtime) matches Some(c) && final(writer).log@ =~= old(writer).log@ + (
-            if c == self.mode { seq![Ev::Child(self.if_true.rid())] }
-            else { match self.if_false { Some(t) => seq![Ev::Child(t.rid())], None => Seq::<Ev>::empty() } })),      // [C06:exactly_one_branch]
+            if c == self.mode { seq![Ev::Child(self.if_true.rid(), runtime.ident())] }
+            else { match self.if_false { Some(t) => seq![Ev::Child(t.rid(), runtime.ident())], None => Seq::<Ev>::empty() } })),      // [C06:exactly_one_branch]
         // on error nothing but (a prefix of) the chosen branch was written
         r is Err ==> (final(writer).log@ == old(writer).log@
             || (self.condition.sem(runtime) matches Some(c) && final(writer).log@ == old(writer).log@.push(Ev::Partial(
-                if c == self.mode { self.if_true.rid() } else { match self.if_false { Some(t) => t.rid(), None => self.if_true.rid() } })))),   // [C06:error_touches_only_chosen_branch]
+                if c == self.mode { self.if_true.rid() } else { match self.if_false { Some(t) => t.rid(), None => self.if_true.rid() } }, runtime.ident())))),   // [C06:error_touches_only_chosen_branch]
 //@ end
 }
 
@@ -217,9 +217,9 @@ impl Case {
         sink_safe(*old(writer), *final(writer), r),                                              // [C10:case_failed_sink_is_error]
         // exactly one branch: the first arm with an equal value, otherwise the else block, otherwise nothing
         r is Ok ==> (self.target.denotes(runtime) matches Some(val) && (match first_arm(self.cases@, val, runtime, 0) {
-            Some(Some(k)) => final(writer).log@ == old(writer).log@.push(Ev::Child(self.cases@[k].template.rid())),
+            Some(Some(k)) => final(writer).log@ == old(writer).log@.push(Ev::Child(self.cases@[k].template.rid(), runtime.ident())),
             Some(None) => match self.else_block {
-                Some(t) => final(writer).log@ == old(writer).log@.push(Ev::Child(t.rid())),
+                Some(t) => final(writer).log@ == old(writer).log@.push(Ev::Child(t.rid(), runtime.ident())),
                 None => final(writer).log@ == old(writer).log@ },
             None => false })),                                                                    // [C06:case_first_matching_arm_else_else]
 //@ edit <<for case in &self.cases>> => <<for case in it: &self.cases>> why: names Verus' ghost iterator so that the invariant can refer to the position
